@@ -247,7 +247,7 @@ func Run(r *rt.Run) error {
 	nRand := 2
 	mergeLimit := 6
 	if r.Thorough() {
-		nRand, mergeLimit = 12, 40
+		nRand, mergeLimit = 40, 120
 	}
 	for i := 0; i < nRand; i++ {
 		var p [2][]in
